@@ -101,6 +101,11 @@ pub struct Shell<SE: extensions::ShellExtensions = extensions::DefaultShellExten
     /// Clone depth from the original ancestor shell.
     depth: usize,
 
+    /// Number of loops (`for`, `while`, `until`) enclosing the command being executed,
+    /// within the current function and (sub)shell.
+    #[cfg_attr(feature = "serde", serde(default))]
+    loop_depth: usize,
+
     /// Shell name
     name: Option<String>,
 
@@ -184,6 +189,8 @@ impl<SE: extensions::ShellExtensions> Clone for Shell<SE> {
             key_bindings: self.key_bindings.clone(),
             history: self.history.clone(),
             depth: self.depth + 1,
+            // A subshell is not inside any of its parent's loops.
+            loop_depth: 0,
         }
     }
 }
@@ -201,6 +208,17 @@ impl<SE: extensions::ShellExtensions> AsMut<Self> for Shell<SE> {
 }
 
 impl<SE: extensions::ShellExtensions> Shell<SE> {
+    /// Returns the number of loops enclosing the command being executed, within the
+    /// current function and (sub)shell.
+    pub const fn loop_depth(&self) -> usize {
+        self.loop_depth
+    }
+
+    /// Updates the number of enclosing loops; returns the previous value.
+    pub(crate) const fn set_loop_depth(&mut self, loop_depth: usize) -> usize {
+        std::mem::replace(&mut self.loop_depth, loop_depth)
+    }
+
     /// Returns a new shell instance created with the given options.
     /// Does *not* load any configuration files (e.g., bashrc).
     ///
